@@ -346,7 +346,9 @@ fn exec(sh: &Shared, e: &Value) -> Result<(), String> {
         "Clone" => {
             let d = e["d"].as_u64().unwrap() as usize - 1;
             let h = take(s).ok_or("clone of free slot")?;
-            let cm = C_MODE.load(SeqCst) != 0;
+            // C16: the handle is cloned by the C driver - or, for every other (source, destination) pair, by Rust: a handle
+            // works the same whichever side made it, cloned it or releases it
+            let cm = C_MODE.load(SeqCst) != 0 && (s + d) % 2 == 0;
             let mut h = h;
             let via_mut = !cm && (s + d) % 2 == 1;
             let c = ledger::track(|| unsafe {
@@ -409,7 +411,7 @@ fn exec(sh: &Shared, e: &Value) -> Result<(), String> {
         }
         "Drop" => {
             let h = take(s).ok_or("drop of free slot")?;
-            if C_MODE.load(SeqCst) != 0 {
+            if C_MODE.load(SeqCst) != 0 && s % 2 == 0 {
                 ledger::track(|| unsafe {
                     match h {
                         H::CArc(x) => c_release(x),
